@@ -131,6 +131,13 @@ class Gen:
                 cands.append(k[:8] + b"\x00")
             if len(k) > 16:
                 cands.append(k[:16])
+            # endpoints that extend a stored key by ~256 bytes: the layer-relative length of the
+            # endpoint then wraps in any 8-bit length arithmetic
+            if r.random() < 0.3:
+                pad = r.choice([247, 248, 250, 255, 256, 257, 264, 512])
+                cands.append(k + bytes([r.choice([0x00, 0x01, 0x78, 0xff])]) * pad)
+                if len(k) >= 8:
+                    cands.append(k[:8 * (len(k) // 8)] + b"x" * pad)
         cands.append(b"")
         cands.append(b"\xff" * 8)
         cands.append(b"\xff" * 9)
@@ -188,11 +195,48 @@ class Gen:
         self.cursors += 1
         cur = "c%d" % self.cursors
         r2l = 1 if r.random() < 0.4 else 0
+        live = sorted(self.live.get(st, []))
+        if live and r.random() < 0.35:
+            # start exactly on a stored key (INCLUSIVE): the one entry the cursor returns from open
+            if r2l:
+                rk, re_ = r.choice(live), "I"
+                if le != "F" and lk > rk:
+                    lk = b""
+            else:
+                lk, le = r.choice(live), "I"
+                if re_ != "F" and lk > rk:
+                    re_ = "F"
         self.emit("iopen %s %s %s %s %s %s %d %d" % (cur, hx(st), hx(lk), le, hx(rk), re_, r2l, 0))
         # the driver stops calling inext after OK_SCAN_END; we bound the count by the live set
         n = len(self.live.get(st, [])) + 2
-        stop_at = n if r.random() < 0.7 else r.randrange(n)
-        self.emit("idrain %s %d" % (cur, stop_at))
+        if r.random() < 0.4:
+            # the caller pauses and modifies the tree between cursor steps (same thread): inserts
+            # that split the node / the layer root under the cursor, removes that empty it
+            anchor = (rk if r2l else lk)
+            if len(anchor) > 8 and r.random() < 0.6:
+                # hit the layer the cursor stands in: fill it until its root splits, or empty it
+                pfx = anchor[: 8 * ((len(anchor) - 1) // 8)]
+                if r.random() < 0.7:
+                    for i in range(17):
+                        self.put(st, pfx + b"~%02d" % i, unique=False, info="none")
+                else:
+                    for k in [k for k in live if k.startswith(pfx) and len(k) > len(pfx)]:
+                        self.remove(st, k)
+                    self.put(st, pfx + b"again", unique=False, info="none")
+                live = sorted(self.live.get(st, []))
+            for _ in range(r.choice([1, 2, 4])):
+                self.emit("idrain %s %d" % (cur, r.choice([0, 1, 2])))
+                for _ in range(r.choice([1, 3, 16])):
+                    x = r.random()
+                    if x < 0.65:
+                        base = r.choice(live) if live and r.random() < 0.8 else r.choice(pool)
+                        self.put(st, base + bytes([r.choice([0x00, 0x30, 0x31, 0x7a, 0xff])]) * r.choice([0, 1, 2]), unique=False, info="none")
+                    elif live:
+                        self.remove(st, r.choice(live))
+            self.emit("idrain %s %d" % (cur, n + 40))
+        else:
+            stop_at = n if r.random() < 0.7 else r.randrange(n)
+            self.emit("idrain %s %d" % (cur, stop_at))
         self.emit("iclose %s" % cur)
 
     def run_cycles(self):
